@@ -126,4 +126,4 @@ def fresh_process_part(tier, budget):
 
 
 def main(argv):
-    return schedcheck.run_stages("C11", argv, stages, assumptions=ASSUME, extra=fresh_process_part)
+    return schedcheck.run_stages("C11", argv, stages, assumptions=ASSUME, extra=fresh_process_part, budget={"quick": 170.0, "thorough": 1500.0})
